@@ -162,7 +162,7 @@ def execute(sc):
         else:
             _run_conc(sc, ctl, shim, objs, observe)
         ctl.start()
-        if not ctl.finished.wait(sc.get('wall', 6.0)):
+        if not rt.wait_finished(ctl, sc.get('wall', 6.0)):
             ctl.status = 'stuck'
         ctl.log('End', status=ctl.status if ctl.status in ('ok', 'hang') else 'stuck', fds=len(shim.fds))
         return rt.result_payload(ctl)
